@@ -243,6 +243,7 @@ def mini_scenario(
     with_red: bool = True,
     seed: int = 3,
     obs_variant: str = "exact",
+    green_busy: bool = False,
 ):
     """kind: 'switched' (2 hosts + server on a switch) or 'routed' (host - router - server).
     obs_variant: 'exact' (as many components listed as the num_* sizes), 'surplus' (more services / applications /
@@ -347,6 +348,8 @@ def mini_scenario(
     acts.append(("node-application-remove", {"node_name": "client_2", "application_name": "nmap"}))
     acts.append(("node-application-remove", {"node_name": "client_1", "application_name": "database-client"}))
     acts.append(("node-application-remove", {"node_name": "client_1", "application_name": "nmap"}))
+    # the application the GREEN agent uses and is rewarded for, removed by the defender (possibly in the very step it is used)
+    acts.append(("node-application-remove", {"node_name": "client_2", "application_name": "web-browser"}))
     acts += list(extra_actions)
     action_map = {i: {"action": a, "options": o} for i, (a, o) in enumerate(acts)}
     if action_order == "desc":  # same numbering, listed in another order (legal: the schema only wants every number present)
@@ -387,7 +390,7 @@ def mini_scenario(
             {
                 "ref": "green_1", "team": "GREEN", "type": "periodic-agent",
                 "action_space": {"action_map": {0: {"action": "do-nothing", "options": {}}, 1: {"action": "node-application-execute", "options": {"node_name": "client_2", "application_name": "web-browser"}}}},
-                "agent_settings": {"possible_start_nodes": ["client_2"], "target_application": "web-browser", "start_step": 1, "frequency": 2, "variance": 1},
+                "agent_settings": {"possible_start_nodes": ["client_2"], "target_application": "web-browser", "start_step": 0 if green_busy else 1, "frequency": 1 if green_busy else 2, "variance": 0 if green_busy else 1},
                 "reward_function": {"reward_components": [{"type": "webpage-unavailable-penalty", "weight": 0.25, "options": {"node_hostname": "client_2"}}]},
             }
         )
